@@ -4,16 +4,8 @@
 //! usage: nexrad-verif <ID> <quick|thorough> [--replay <file>]
 //! exit 0 = property held on everything explored; 1 = VIOLATION; 2 = inconclusive (never a violation)
 
-mod alloc;
-mod findings;
-mod gen;
-mod model;
-mod props;
-mod runner;
-mod s3sim;
-mod wire;
-
-use runner::{Ctx, Report, Tier};
+use nexrad_verif::runner::{Ctx, Report, Tier};
+use nexrad_verif::{alloc, props, runner, wire};
 
 #[global_allocator]
 static GLOBAL: alloc::Counting = alloc::Counting;
